@@ -20,6 +20,10 @@ var Vocab = []string{"|", "(", ")", "[", "]", ",", ";", ".", "=", "==", "!=", "=
 	"\ufeff", "\ufffd", "\u2020", "\u0420", "\u010d", "三", "😊", "\u00a0", "\u2003", "\r", "\r\n", "\v", "\f",
 	"0x000000000000000ff", "0x10000000000000000", "`let`", "`$left`", "`count()`",
 	// string literals with an escape followed by a raw line break, and other multi-line oddities
+	// numbers that stop inside their exponent
+	"1e+", "2.5E-", "0e-", "1.e+", ".5e",
+	// contextual keywords spelled as strings and quoted names
+	"'asc'", "`desc`", "\"asc\"", "'desc'", "`nulls`", "'first'", "`last`", "`by`", "'by'", "`on`", "'kind'", "`kind`", "`with`", "'let'", "`and`", "'or'", "`in`", "'in'", "`inner`", "'leftouter'",
 	"\"x\\ty\nz\"", "'p\\\\q\nr'", "\"a\\\"\nb\"", "`c\nd`", "'e\\\nf'"}
 
 // Hostile bytes for byte-level mutation.
